@@ -27,11 +27,19 @@
 use std::cmp::{max, min};
 use std::io::Write;
 use std::path::PathBuf;
+#[cfg(not(yamaquasi_verif_loom))]
 use std::sync::atomic::{AtomicBool, AtomicUsize, Ordering};
+#[cfg(yamaquasi_verif_loom)]
+use crate::verif_shim::sync::atomic::{AtomicBool, AtomicUsize, Ordering};
+#[cfg(not(yamaquasi_verif_loom))]
 use std::sync::RwLock;
+#[cfg(yamaquasi_verif_loom)]
+use crate::verif_shim::sync::RwLock;
 
 use num_traits::ToPrimitive;
 use rayon::prelude::*;
+#[cfg(yamaquasi_verif_loom)]
+use crate::verif_shim as rayon;
 
 use crate::arith::{Dividers, Num};
 use crate::fbase::{self, FBase};
